@@ -169,6 +169,12 @@ func runC02(c *core.Ctx) {
 		if s.scdMore == "address" || s.scdMore == "both" {
 			varied.Address = samlgen.S("192.0.2.7")
 		}
+		switch s.scdMore { // a confirmation that states no upper bound at all has none that could hold
+		case "nooa-absent":
+			varied.NotOnOrAfter = nil
+		case "nooa-empty":
+			varied.NotOnOrAfter = samlgen.S("")
+		}
 		good = a.Confirmations[0]
 		good.NotOnOrAfter = samlgen.S(std(instantAt(kSCD, posFarIn, now, t)))
 		switch s.confs {
@@ -218,6 +224,9 @@ func runC02(c *core.Ctx) {
 			if p != posFarIn {
 				allFar = false
 			}
+		}
+		if (s.scdMore == "nooa-absent" || s.scdMore == "nooa-empty") && s.confs != 0 {
+			v = core.MustReject // "now <= NotOnOrAfter + skew for every confirmation" cannot hold for a confirmation without one
 		}
 		if v == core.MustAccept && (s.method != "" && s.confs == 1 || s.confs == 0) {
 			v = core.DontCare // no obligation to accept an assertion without any bearer confirmation
@@ -284,6 +293,8 @@ func runC02(c *core.Ctx) {
 				hooks           bool
 				scdMore         string
 			}{{"scd-notbefore/R", false, false, harness.Layout{SignResponse: true}, "", false, "notbefore"}, {"scd-notbefore/A", false, false, harness.Layout{SignAssertion: true}, "", false, "notbefore"},
+				{"scd-nooa-absent/R", false, false, harness.Layout{SignResponse: true}, "", false, "nooa-absent"}, {"scd-nooa-absent/A", false, false, harness.Layout{SignAssertion: true}, "", false, "nooa-absent"},
+				{"scd-nooa-empty/A", false, false, harness.Layout{SignAssertion: true}, "", false, "nooa-empty"},
 				{"scd-address/A", false, false, harness.Layout{SignAssertion: true}, "", false, "address"}, {"scd-notbefore+address/R", false, false, harness.Layout{SignResponse: true}, "", false, "both"},
 				{"hooks/R", false, false, harness.Layout{SignResponse: true}, "", true, ""}, {"hooks/A", false, false, harness.Layout{SignAssertion: true}, "", true, ""}, {"idpinit/R", true, false, harness.Layout{SignResponse: true}, "", false, ""}, {"idpinit/A", true, false, harness.Layout{SignAssertion: true}, "", false, ""},
 				{"nodest/A", false, true, harness.Layout{SignAssertion: true}, "", false, ""}, {"idpinit+nodest/A", true, true, harness.Layout{SignAssertion: true}, "", false, ""},
